@@ -4,7 +4,8 @@
 use crate::core::*;
 use ark_ec::pairing::{Pairing, PairingOutput};
 use ark_ec::{AffineRepr, CurveGroup, Group};
-use ark_ff::{Field, PrimeField, Zero};
+use ark_ec::short_weierstrass::SWCurveConfig;
+use ark_ff::{BigInteger, Field, PrimeField, Zero};
 use ark_serialize::{CanonicalDeserialize, CanonicalSerialize};
 use num_bigint::BigUint;
 use rayon::prelude::*;
@@ -196,6 +197,146 @@ pub fn eval_tower(idx: usize) -> Outcome {
     Outcome::ok(class)
 }
 
+
+// ---- crafted curve points: y solved into the boundary classes of the sign comparison ----------
+// The compressed form of a point stores one flag, decided by comparing y with -y (G1: as integers;
+// G2: c1 first, then c0). Points k*G never bring y near the boundaries of that comparison, so y
+// (resp. y.c1) is CHOSEN from the boundary classes of a multi-limb comparison around (p-1)/2 and
+// p, and x is solved for: x^3 = y^2 - b has a solution iff (y^2-b)^(|F*|/3) = 1, and then
+// x = (y^2-b)^(1/3 mod |F*|/3), because 3 divides |F*| exactly once for both Fp and Fp2 (asserted).
+// The points lie on the curve but in general not in the prime-order subgroup, so the unchecked
+// deserialisation entry points are compared as well as the checked ones (which must agree).
+type RF1 = <<R as Pairing>::G1Affine as AffineRepr>::BaseField;
+type RF2 = <<R as Pairing>::G2Affine as AffineRepr>::BaseField;
+type DF1 = <<D as Pairing>::G1Affine as AffineRepr>::BaseField;
+type DF2 = <<D as Pairing>::G2Affine as AffineRepr>::BaseField;
+
+fn fp_of<F: PrimeField>(x: &BigUint) -> F {
+    F::from_le_bytes_mod_order(&x.to_bytes_le())
+}
+
+/// all cube roots of c in F, |F*| = order_minus_one = 3t with 3 not dividing t
+fn cube_roots<F: Field>(c: &F, order_minus_one: &BigUint) -> Vec<F> {
+    if c.is_zero() {
+        return vec![F::zero()];
+    }
+    let t = order_minus_one / 3u32;
+    let tm3 = (&t % 3u32).to_u32_digits().first().copied().unwrap_or(0);
+    assert!(tm3 != 0 && &t * 3u32 == *order_minus_one, "3 divides |F*| exactly once");
+    if c.pow(limbs(&t)) != F::one() {
+        return vec![];
+    }
+    // k = 3^-1 mod t
+    let k = if tm3 == 2 { (&t + 1u32) / 3u32 } else { (&t * 2u32 + 1u32) / 3u32 };
+    let x = c.pow(limbs(&k));
+    assert!(x.square() * x == *c, "cube root construction");
+    // a primitive cube root of unity: e^t for the first small e that is not a cube
+    let mut w = F::one();
+    for e in 2u64..50 {
+        let cand = F::from(e).pow(limbs(&t));
+        if cand != F::one() {
+            w = cand;
+            break;
+        }
+    }
+    assert!(w != F::one() && w.square() * w == F::one());
+    vec![x, x * w, x * w.square()]
+}
+
+pub fn crafted_ys(quick: bool) -> Vec<BigUint> {
+    let p = big(refmodel::spec::P_HEX);
+    let mut v = crate::fields::target_family(&p, 48);
+    if quick {
+        // keep every class but thin the within-class patterns
+        v = v.into_iter().enumerate().filter(|(i, _)| i % 3 == 0).map(|(_, x)| x).collect();
+    }
+    v
+}
+
+fn compare_point<PD: SWCurveConfig, PR: SWCurveConfig>(class: &str, case: &Value, d: ark_ec::short_weierstrass::Affine<PD>, r: ark_ec::short_weierstrass::Affine<PR>) -> Option<Viol> {
+    type GDa<P> = ark_ec::short_weierstrass::Affine<P>;
+    let _ = class;
+    if !r.is_on_curve() {
+        return Some(mkv("machinery: crafted point off the reference curve", case.clone(), "on curve".into(), "off curve".into()));
+    }
+    if !d.is_on_curve() {
+        return Some(mkv("crafted point: is_on_curve", case.clone(), "on curve (as in the reference engine)".into(), "off curve".into()));
+    }
+    if d.is_in_correct_subgroup_assuming_on_curve() != r.is_in_correct_subgroup_assuming_on_curve() {
+        return Some(mkv("crafted point: subgroup test", case.clone(), format!("{}", r.is_in_correct_subgroup_assuming_on_curve()), format!("{}", d.is_in_correct_subgroup_assuming_on_curve())));
+    }
+    let (dc, rc, du, ru) = (ser_c(&d), ser_c(&r), ser_u(&d), ser_u(&r));
+    if dc != rc {
+        return Some(mkv("crafted point: compressed bytes", case.clone(), hex::encode(&rc), hex::encode(&dc)));
+    }
+    if du != ru {
+        return Some(mkv("crafted point: uncompressed bytes", case.clone(), hex::encode(&ru), hex::encode(&du)));
+    }
+    // unchecked and checked deserialisation of the reference bytes in both engines
+    let a = GDa::<PD>::deserialize_compressed_unchecked(&rc[..]).ok().map(|x| ser_u(&x));
+    let b = GDa::<PR>::deserialize_compressed_unchecked(&rc[..]).ok().map(|x| ser_u(&x));
+    if a != b || b.as_ref() != Some(&ru) {
+        return Some(mkv("crafted point: deserialize_compressed_unchecked", case.clone(), format!("{:?}", b.map(hex::encode)), format!("{:?}", a.map(hex::encode))));
+    }
+    let a = GDa::<PD>::deserialize_uncompressed_unchecked(&ru[..]).ok().map(|x| ser_c(&x));
+    let b = GDa::<PR>::deserialize_uncompressed_unchecked(&ru[..]).ok().map(|x| ser_c(&x));
+    if a != b {
+        return Some(mkv("crafted point: deserialize_uncompressed_unchecked", case.clone(), format!("{:?}", b.map(hex::encode)), format!("{:?}", a.map(hex::encode))));
+    }
+    let a = GDa::<PD>::deserialize_compressed(&rc[..]).ok().map(|x| ser_u(&x));
+    let b = GDa::<PR>::deserialize_compressed(&rc[..]).ok().map(|x| ser_u(&x));
+    if a != b {
+        return Some(mkv("crafted point: deserialize_compressed (validated)", case.clone(), format!("accepts: {}", b.is_some()), format!("accepts: {}", a.is_some())));
+    }
+    None
+}
+
+/// group = 1: y in Fp; group = 2: y = (c0, c1) with c1 = yv and c0 = c0v
+pub fn eval_crafted(group: u8, yv: &BigUint, c0v: &BigUint) -> Outcome {
+    let p = big(refmodel::spec::P_HEX);
+    let case = json!({"kind": "crafted", "group": group, "y": yv.to_string(), "c0": c0v.to_string()});
+    let half = (&p - 1u32) >> 1;
+    let rel = if *yv == half || *yv == &half + 1u32 { "at-half" } else if (yv >> 320) == (&half >> 320) || (yv >> 320) == ((&p - yv) >> 320) { "top-limb-tie" } else { "plain" };
+    if group == 1 {
+        let yr: RF1 = fp_of(yv);
+        let b = <<R as Pairing>::G1Affine as AffineRepr>::Config::COEFF_B;
+        let roots = cube_roots(&(yr.square() - b), &(&p - 1u32));
+        if roots.is_empty() {
+            return Outcome::ok(format!("crafted/g1/{rel}/no-point"));
+        }
+        for x in roots {
+            let xd: DF1 = fp_of(&BigUint::from_bytes_le(&x.into_bigint().to_bytes_le()));
+            let yd: DF1 = fp_of(yv);
+            for neg in [false, true] {
+                let (r, d) = if neg { (<R as Pairing>::G1Affine::new_unchecked(x, -yr), <D as Pairing>::G1Affine::new_unchecked(xd, -yd)) } else { (<R as Pairing>::G1Affine::new_unchecked(x, yr), <D as Pairing>::G1Affine::new_unchecked(xd, yd)) };
+                if let Some(v) = compare_point("g1", &case, d, r) {
+                    return Outcome::bad(format!("crafted/g1/{rel}"), v);
+                }
+            }
+        }
+        Outcome::ok(format!("crafted/g1/{rel}/point"))
+    } else {
+        let yr = RF2::from_base_prime_field_elems(&[fp_of::<RF1>(c0v), fp_of::<RF1>(yv)]).unwrap();
+        let b = <<R as Pairing>::G2Affine as AffineRepr>::Config::COEFF_B;
+        let roots = cube_roots(&(yr.square() - b), &(&p * &p - 1u32));
+        if roots.is_empty() {
+            return Outcome::ok(format!("crafted/g2/{rel}/no-point"));
+        }
+        for x in roots {
+            let xs: Vec<RF1> = x.to_base_prime_field_elements().collect();
+            let xd = DF2::from_base_prime_field_elems(&[fp_of::<DF1>(&BigUint::from_bytes_le(&xs[0].into_bigint().to_bytes_le())), fp_of::<DF1>(&BigUint::from_bytes_le(&xs[1].into_bigint().to_bytes_le()))]).unwrap();
+            let yd = DF2::from_base_prime_field_elems(&[fp_of::<DF1>(c0v), fp_of::<DF1>(yv)]).unwrap();
+            for neg in [false, true] {
+                let (r, d) = if neg { (<R as Pairing>::G2Affine::new_unchecked(x, -yr), <D as Pairing>::G2Affine::new_unchecked(xd, -yd)) } else { (<R as Pairing>::G2Affine::new_unchecked(x, yr), <D as Pairing>::G2Affine::new_unchecked(xd, yd)) };
+                if let Some(v) = compare_point("g2", &case, d, r) {
+                    return Outcome::bad(format!("crafted/g2/{rel}"), v);
+                }
+            }
+        }
+        Outcome::ok(format!("crafted/g2/{rel}/point"))
+    }
+}
+
 pub fn run(ctx: &Arc<Ctx>) {
     let sc = scalars(ctx.quick());
     // generators and curve parameters
@@ -219,9 +360,22 @@ pub fn run(ctx: &Arc<Ctx>) {
         |&(i, j)| eval_pairing(&sc[i].0, &sc[i].1, &sc[j].0, &sc[j].1, &base),
         |&(i, j)| ("pairing".into(), json!({"kind": "pairing", "a": sc[i].0, "b": sc[j].0, "ka": sc[i].1.to_string(), "kb": sc[j].1.to_string()})),
     );
+    // crafted points (see above): G1 with y, G2 with y.c1, in the boundary classes; G2's y.c0 from
+    // {0, 1, a fixed dense value}
+    let ys = crafted_ys(ctx.quick());
+    let pm = big(refmodel::spec::P_HEX);
+    let c0s: Vec<BigUint> = vec![u(0), u(1), BigUint::from_bytes_le(&[0x5au8; 47]) % &pm];
+    let ny = ys.len();
+    run_cases(
+        ctx, "E3/C16-crafted-points", false,
+        (0..ny * 4).into_par_iter().map(|i| (i / 4, i % 4)),
+        |&(yi, j)| if j == 0 { eval_crafted(1, &ys[yi], &u(0)) } else { eval_crafted(2, &ys[yi], &c0s[j - 1]) },
+        |&(yi, j)| ("crafted".into(), json!({"kind": "crafted", "group": if j == 0 { 1 } else { 2 }, "y": ys[yi].to_string(), "c0": if j == 0 { "0".to_string() } else { c0s[j - 1].to_string() }})),
+    );
+    ctx.report.set("C16_crafted_y_values", json!(ny));
     let nt = ctx.t(20usize, 60);
     run_cases(ctx, "E3/C16-tower", false, (0..nt).into_par_iter(), |&i| eval_tower(i), |&i| ("tower".into(), json!({"kind": "tower", "element": i})));
-    ctx.report.rule(format!("E3/C16[ark]: {} structured scalars: k*G1, k*G2 (mul_bigint and Mul<ScalarField>) compressed/uncompressed byte-equal with ark_bls12_377 and cross-deserialised both ways; all {}^2 pairings e(aG1,bG2) byte-equal, bilinear against e(G1,G2)^(ab), multi_pairing / miller_loop+final_exponentiation consistent, identity iff ab = 0; {} Fp12 elements (12 basis + dense): mul/square/add/inverse/pow and frobenius_map(0..11) byte-equal with the reference tower", n, n, nt));
+    ctx.report.rule(format!("E3/C16[ark]: {} structured scalars: k*G1, k*G2 (mul_bigint and Mul<ScalarField>) compressed/uncompressed byte-equal with ark_bls12_377 and cross-deserialised both ways; all {}^2 pairings e(aG1,bG2) byte-equal, bilinear against e(G1,G2)^(ab), multi_pairing / miller_loop+final_exponentiation consistent, identity iff ab = 0; {ny} boundary-class y values: curve points solved for in G1 (y) and G2 (y.c1, three y.c0) and their negations, compressed/uncompressed bytes, on-curve/subgroup verdicts and unchecked/validated deserialisation equal in both engines; {} Fp12 elements (12 basis + dense): mul/square/add/inverse/pow and frobenius_map(0..11) byte-equal with the reference tower", n, n, nt));
     ctx.report.assume("C16: the ark-bls12-377 crate is the reference engine");
 }
 
@@ -234,6 +388,7 @@ pub fn replay(case: &Value) -> (bool, Value) {
             eval_pairing(case["a"].as_str().unwrap_or(""), &p(&case["ka"]), case["b"].as_str().unwrap_or(""), &p(&case["kb"]), &base)
         }
         "tower" => eval_tower(case["element"].as_u64().unwrap_or(0) as usize),
+        "crafted" => eval_crafted(case["group"].as_u64().unwrap_or(1) as u8, &p(&case["y"]), &p(&case["c0"])),
         _ => return (true, json!({"note": "generator comparison is replayed by ./check C16 quick"})),
     };
     match o.viol {
